@@ -65,6 +65,12 @@ func flatTarget(sh Shape) string {
 		return ".[F1 >= 0]"
 	}
 	if sh.SkipValue != "" {
+		switch sh.BareFilter {
+		case 1:
+			return "F0 != '" + sh.SkipValue + "'"
+		case 2:
+			return "F0 != '" + sh.SkipValue + "' and F0 != '" + sh.SkipValue + "-never'"
+		}
 		return ".[F0 != '" + sh.SkipValue + "']"
 	}
 	return ""
@@ -76,6 +82,12 @@ func paddedTarget(sh Shape) string {
 		return ".[F1 >= 0]"
 	}
 	if sh.SkipValue != "" {
+		switch sh.BareFilter {
+		case 1:
+			return "not(starts-with(F0, '" + sh.SkipValue + "'))"
+		case 2:
+			return "not(starts-with(F0, '" + sh.SkipValue + "')) and F0 != '" + sh.SkipValue + "-never'"
+		}
 		return ".[not(starts-with(F0, '" + sh.SkipValue + "'))]"
 	}
 	return ""
